@@ -1016,6 +1016,7 @@ def check_xstore(ctx: Check, tree: Tree) -> None:
             # which the removal loop ran zero times is infeasible, and the walker does not know that)
             del_roots = all_del_roots
             deciding = [t for t in tests_here if any(any(_pos(t2[1]) == _pos(t[1]) and t2[2] != t[2] for t2 in r[2]) for r in storing)]
+            deciding = deciding[-1:]  # the test that finally separated this iteration from a storing one
             key_use = mass_loops[pos_]
             if any(_roots(t[1], rd) & del_roots for t in deciding):
                 continue  # decided by the configuration that the earlier removals were conditioned on
@@ -1023,8 +1024,16 @@ def check_xstore(ctx: Check, tree: Tree) -> None:
             verdicts = [_guarded_against(tree, fn, deciding, no_domain, maps, key_use, rd)] if deciding else [False]
             if any(v is True for v in verdicts):
                 continue
-            if any(v is None for v in verdicts):
-                undecided.append(f"whether the iteration of `for {loop.target.id} in {unparse(loop.iter)[:40]}` that stores nothing is only taken for symbols that are parameters depends on a call that is not read")
+            # what kind of test decided the skip?  A recogniser of mass symbols on the loop variable itself (isinstance /
+            # name prefix / assumption) only says that the element is not a mass symbol at all - the loop's domain filter
+            # written as a guard.  A pure comparison of a LENGTH with integer constants skips symbols by their shape:
+            # positive evidence.  Anything else is not read: undecided.
+            var = loop.target.id
+            kinds = {_skip_test_kind(t[1], var, rd) for t in deciding}
+            if kinds and kinds <= {"recogniser"}:
+                continue
+            if any(v is None for v in verdicts) or not kinds or kinds - {"recogniser", "length"}:
+                undecided.append(f"whether the iteration of `for {var} in {unparse(loop.iter)[:40]}` that stores nothing (decided by {[unparse(t[1])[:40] for t in deciding] or 'no test that separates it from a storing iteration'}) is only taken for symbols that need no definition cannot be read")
                 continue
             skipped_iterations[pos_] = (loop, [unparse(e[1])[:50] + (" is true" if e[2] else " is false") for e in tests_here])
     for loop, tests_txt in skipped_iterations.values():
@@ -1082,6 +1091,46 @@ def _self_paths(e: ast.AST) -> set[str]:
     return out
 
 
+def _skip_test_kind(test: ast.AST, var: str, rd: RD) -> str:
+    """'recogniser': only isinstance(var, ..) / var.name.startswith(..) / var.is_<assumption> (and their negations /
+    conjunctions); 'length': only comparisons of len(<anything>) with integer constants; 'other' otherwise."""
+    def atoms(e: ast.AST) -> list[ast.AST]:
+        if isinstance(e, ast.UnaryOp) and isinstance(e.op, ast.Not):
+            return atoms(e.operand)
+        if isinstance(e, ast.BoolOp):
+            return [a for v in e.values for a in atoms(v)]
+        return [e]
+
+    def recogniser(a: ast.AST) -> bool:
+        if isinstance(a, ast.Call) and isinstance(a.func, ast.Name) and a.func.id == "isinstance" and a.args and isinstance(a.args[0], ast.Name) and a.args[0].id == var:
+            return True
+        if isinstance(a, ast.Call) and isinstance(a.func, ast.Attribute) and a.func.attr in {"startswith", "endswith"} and unparse(a.func.value) == f"{var}.name":
+            return True
+        return isinstance(a, ast.Attribute) and isinstance(a.value, ast.Name) and a.value.id == var and a.attr.startswith("is_")
+
+    def length(a: ast.AST) -> bool:
+        if not (isinstance(a, ast.Compare) and len(a.ops) == 1):
+            return False
+        sides = [a.left, a.comparators[0]]
+        return any(isinstance(x, ast.Call) and isinstance(x.func, ast.Name) and x.func.id == "len" for x in sides) and any(isinstance(x, ast.Constant) and type(x.value) is int for x in sides)
+
+    parts = atoms(test)
+    # a name that stands for such a test (`is_mass = isinstance(..) and ..`): its single definition
+    expanded = []
+    for a in parts:
+        if isinstance(a, ast.Name) and isinstance(a.ctx, ast.Load):
+            defs = rd.reaching(a)
+            if len(defs) == 1 and next(iter(defs)).kind == "assign" and next(iter(defs)).value is not None and next(iter(defs)).index is None:
+                expanded += atoms(next(iter(defs)).value)
+                continue
+        expanded.append(a)
+    if expanded and all(recogniser(a) for a in expanded):
+        return "recogniser"
+    if expanded and all(length(a) for a in expanded):
+        return "length"
+    return "other"
+
+
 def _roots(e: ast.AST, rd: RD) -> set[str]:
     """What a condition / loop domain is about: the `self.a.b` paths it mentions, the locals it reads (by name) and the
     `self.a.b` paths those locals were computed from (plain bindings only)."""
@@ -1136,6 +1185,13 @@ def _guarded_against(tree: Tree, fn: FuncInfo, tests: list[tuple], domain: ast.A
             return True
         if any(d.value is not None and mentions(d.value) for d in _plain_closure(rd, rd.uses(test))):
             return True
+        # the test reads a value that a helper of the package computed from the key (`expr = self.__define(symbol); if expr
+        # is not None:`): what the helper decided is not read here
+        for d in _plain_closure(rd, rd.uses(test)):
+            if d.value is not None:
+                for c_ in ast.walk(d.value):
+                    if isinstance(c_, ast.Call) and hasattr(c_, "_module") and tree.callee(c_, fn) in tree.funcs and any(isinstance(a, ast.Name) and maps.key(a) == maps.key(key) for a in ast.walk(c_)):
+                        opaque = True
         for n in ast.walk(test):
             if isinstance(n, ast.Compare) and len(n.ops) == 1 and isinstance(n.ops[0], (ast.In, ast.NotIn)):
                 if isinstance(n.left, ast.Name) and maps.key(n.left) == maps.key(key) and maps.ident(n.comparators[0]) == maps.par:
